@@ -211,8 +211,9 @@ def oracle_case(case: dict) -> Failure | None:  # noqa: C901
                     # -- (c) not after it was cancelled
                     # An accepted cancel (the request returned without error; the run log shows Cancelled) is final for a
                     # node that nothing resets: no body start in the tick after the request or in any later one.
-                    if s["cancelled_at"] is not None and (
-                            (fixed and s["cancelled_at"] <= t) or (s["cancelled_at"] < t and pn["cancelled"])):
+                    # (Nodes inside an Alarm / Macro: no claim — a covering reset clears the flag while orphaned
+                    # generators go on; the Lean theorem has the same hypothesis, `stable`.)
+                    if s["cancelled_at"] is not None and fixed and s["cancelled_at"] <= t:
                         return Failure("body-started-after-accepted-cancel", case,
                                        f"tick {t}: {w['name']}: {w['arg']} (line {w['line']}) started its body although a "
                                        f"cancel for it was accepted before tick {s['cancelled_at']}")
